@@ -113,3 +113,27 @@ pub fn negation_variants(e: &Expr) -> Vec<Expr> {
     }
     out
 }
+
+/// A balanced tree over `leaves` (depth ~ log2 n) under one operator.
+pub fn balanced(op: Op, leaves: &[Expr]) -> Expr {
+    match leaves.len() {
+        0 => Expr::Test(crate::ast::Test::True),
+        1 => leaves[0].clone(),
+        n => bin(op, balanced(op, &leaves[..n / 2]), balanced(op, &leaves[n / 2..])),
+    }
+}
+
+/// A left-nested chain (depth n) under one operator: the first leaf is the deepest.
+pub fn left_chain(op: Op, leaves: &[Expr]) -> Expr {
+    let mut it = leaves.iter().cloned();
+    let mut acc = it.next().unwrap_or(Expr::Test(crate::ast::Test::True));
+    for e in it {
+        acc = bin(op, acc, e);
+    }
+    acc
+}
+
+/// Run `f` on a thread with a 2 GiB stack (deep trees recurse in the harness and in the subject).
+pub fn on_big_stack<T: Send + 'static>(f: impl FnOnce() -> T + Send + 'static) -> Option<T> {
+    std::thread::Builder::new().stack_size(2 << 30).spawn(f).ok()?.join().ok()
+}
